@@ -5,6 +5,9 @@
 -/
 import Rox.Props.C05Base
 import Rox.Lemmas.Decode
+import Rox.Lemmas.MirrorAll
+import Rox.Lemmas.GrammarTables
+import Rox.Props.C01
 
 namespace Rox.Props.C05
 open Rox Rox.Spec Rox.Lemmas
@@ -22,5 +25,22 @@ theorem attribute_value_normalized (T : Tables) (txt : Bytes) (c c' : Ctx) (valu
     (h : normalizeAttribute T txt c value = .ok (c', out)) :
     out = .owned (attrDecode ps) ∧ c'.ld = c.ld :=
   normalizeAttribute_decodes T txt c c' value out hd ps hp hneed h
+
+/-- **The attributes of every element of every accepted input** (every valid UTF-8 input,
+`allow_dtd = false`): each element's attribute list is exactly the attributes written in its start
+tag that are not namespace declarations (`xmlns`, `xmlns:p`), in source order, with their local
+names and with values normalised per XML 1.0 §3.3.3 (`Rox.Spec.Mirror.attrsOf`, `decodeAttr`:
+literal TAB / LF / CR — CR LF once — become a space, a character reference yields the referenced
+character unchanged, predefined entities their character, nothing trimmed or collapsed). This is
+`C03.accepted_tree_mirrors` read for its attribute lists. -/
+theorem accepted_attributes_normalized (txt : Bytes) (hv : ValidUtf8 txt) (opt : Opt)
+    (hdtd : opt.allowDtd = false) (d : Doc) (h : parse Generated.tables txt opt = .ok d) :
+    ∃ x : Rox.Spec.Grammar.GDoc, Rox.Spec.Grammar.GDocWf Generated.tables x ∧
+      Rox.Spec.Mirror.DocNormal Generated.tables x ∧ Rox.Spec.Grammar.RDoc Generated.tables x txt ∧
+      d.nodes.toList.map (Rox.Spec.Mirror.viewM d) =
+        (none, Rox.Spec.Canon4.YKind.root) ::
+          Rox.Spec.Canon4.expectAllY 0 1 (Rox.Spec.Mirror.docTree x) :=
+  Rox.Lemmas.accepted_tree_mirrors Generated.tables C01.generated_tables_ok
+    Rox.Lemmas.generated_tables_grammar txt hv opt hdtd d h
 
 end Rox.Props.C05
